@@ -92,9 +92,11 @@ def model_check(ad, fam_file, res, tag):
     res.stats["model_transitions"] += r.generated
     res.coverage["Solo"] = r.coverage()
     res.stats["model_depth"] = r.depth
-    if r.violated:
-        res.drift.append({"kind": "model-invariant", "which": r.violated,
-                          "note": "Solo model violates %s; the verdict comes from the real-code monitors" % r.violated})
+    mf = r.tuples("MODELFAIL")
+    if r.violated or mf:
+        res.drift.append({"kind": "model-invariant", "which": sorted({t[1] for t in mf}) + r.violated,
+                          "count": len(mf), "example": mf[:2],
+                          "note": "the Solo MODEL violates an invariant; the verdict comes from the real-code monitors"})
     behaviours = {}
     for t in r.tuples("T"):
         behaviours.setdefault(t[1], set()).add(tuple(t[2]))
@@ -106,9 +108,11 @@ def model_check(ad, fam_file, res, tag):
     res.stats["model_states"] += r2.distinct
     res.stats["model_transitions"] += r2.generated
     res.coverage["Truth"] = r2.coverage()
-    if r2.violated:
-        res.drift.append({"kind": "model-invariant", "which": r2.violated,
-                          "note": "Truth x model product violates C05 on the MODEL"})
+    mf2 = r2.tuples("MODELFAIL")
+    if r2.violated or mf2:
+        res.drift.append({"kind": "model-invariant", "which": ["C05"] + r2.violated, "count": len(mf2),
+                          "example": mf2[:2],
+                          "note": "Truth x model product: the MODEL's mask hides a feasible solution"})
     sols = sorted((t[1], list(t[2]), t[3]) for t in r2.tuples("S"))
     return behaviours, sols
 
